@@ -132,6 +132,18 @@ func gen(tier string) []proto.Item {
 			items = append(items, proto.Item{Scn: s, Class: fmt.Sprintf("%s/reply-arrives-during-the-next-probes-slow-send/k%d", v, k)})
 		}
 	}
+	// serial engine: the destination's answer to one probe arrives after that probe's window has closed, inside the next
+	// probe's window and before the next probe's own answer: whatever is reported for the next TTL is timed against its own probe
+	for _, v := range proto.Variants {
+		if proto.Info(v).Parallel {
+			continue
+		}
+		for _, late := range []int{330000, 360000} {
+			s := proto.Scn{Variant: v, First: 1, Last: 5, Dest: 3, IPIDBase: 500, EchoBase: 41, TimeoutMs: 300, DelayMs: 10}
+			s.Hops = map[int]proto.HopSpec{3: {DelayUs: late}, 4: {DelayUs: 95000}, 5: {DelayUs: 95000}}
+			items = append(items, proto.Item{Scn: s, Class: fmt.Sprintf("%s/destination-answer-arrives-in-the-next-probes-window/%dms", v, late/1000)})
+		}
+	}
 	items = append(items, ForwardReorder(tier, 500, 41)...)
 	return items
 }
